@@ -22,13 +22,16 @@ EMBED = {
     "enum": ["v0", "v1", "v2", "v3", "v4"],             # v4 is NOT declared in the schema (probe only)
     "bool": [False, True, None, None, None],
     "datetime": [100, 3600, 86400, 86400 * 40, 1_700_000_000],
+    # instants around one day: half an hour and an hour apart, then days apart (zones of mixed values span > 48 h,
+    # zones of equal values one hour): narrow and wide zones in one segment, without the cost of decade-wide spans
+    "datetime2": [1_700_000_000, 1_700_001_800, 1_700_003_600, 1_700_000_000 + 3 * 86400, 1_700_000_000 + 5 * 86400],
 }
 SCHEMA_TYPE = {
     "int": '"int"', "int2": '"int"', "u64": '"u64"', "u64s": '"u64"', "float": '"float"', "floati": '"float"',
     "string": '"string"', "string2": '"string"', "enum": '["v0", "v1", "v2", "v3"]', "bool": '"bool"',
-    "datetime": '"datetime"', "numid": '"int"', "numid_opt": '"int | null"',
+    "datetime": '"datetime"', "datetime2": '"datetime"', "numid": '"int"', "numid_opt": '"int | null"',
 }
-ORDERED = {"numid", "numid_opt", "int", "int2", "u64", "u64s", "float", "floati", "string", "string2", "datetime"}
+ORDERED = {"numid", "numid_opt", "int", "int2", "u64", "u64s", "float", "floati", "string", "string2", "datetime", "datetime2"}
 
 
 def lit(kind, v):
@@ -208,6 +211,15 @@ def layout_steps(layout, data, kinds, etype="ev", time_of=lambda ts: 1_700_000_0
     if layout == "l0":
         for e in data:
             st += store(e)
+        st.append(flush)
+        return [st]
+    if layout == "l0ab":
+        # a small segment, then one with many zones (the planner's ">90% of more than 10 zones" fallback applies to
+        # the second only, so one read mixes pruned and fallback zone lists)
+        for i, e in enumerate(data):
+            st += store(e)
+            if i == 1:
+                st.append(flush)
         st.append(flush)
         return [st]
     if layout == "l0x3":
